@@ -490,6 +490,19 @@ Proof.
       exfalso. pose proof (Z.div_pos (size sh) known Hsz Hkp). lia.
 Qed.
 
+(* the GCXS.reshape site: the generated text is the same inference; only the order of the tests differs *)
+Theorem gcxs_reshape_minus1_spec_proof sh new :
+  shape_ok sh -> (count_m1 new <= 1)%nat -> gcxs_reshape_shape sh new = np_reshape_target sh new.
+Proof.
+  intros Hok Hc. rewrite <- (reshape_minus1_spec_proof sh new Hok Hc).
+  unfold gcxs_reshape_shape, coo_reshape_shape.
+  change g_gcxs_reshape_infer with g_reshape_infer.
+  destruct (if existsb (fun d => d =? -1) new then _ else Ok new) as [n'|e]; simpl; [|reflexivity].
+  destruct (idx_eqb sh n') eqn:E; [|reflexivity].
+  apply idx_eqb_eq in E. subst n'. rewrite Z.eqb_refl. simpl.
+  apply shape_ok_existsb in Hok. rewrite Hok. reflexivity.
+Qed.
+
 (* facts about an accepted target *)
 Lemma reshape_target_facts sh new t :
   shape_ok sh -> np_reshape_target sh new = Ok t -> shape_ok t /\ size t = size sh /\ (count_m1 new <= 1)%nat.
